@@ -639,7 +639,7 @@ with Consts("SectionHdr.Characteristics"):
 I : RVA
 I : SymboleTableIndex
 H : Type
-"""
+""", packed=True
 )
 class COFFRelocation(StructFormatter):
     def __init__(self, data=None, offset=0):
@@ -652,7 +652,7 @@ class COFFRelocation(StructFormatter):
     """
 I : Type
 H : LineNumber
-"""
+""", packed=True
 )
 class COFFLineNumber(StructFormatter):
     def __init__(self, data=None, offset=0):
@@ -702,7 +702,7 @@ H   : SectionNumber
 H   : Type
 B   : StorageClass
 B   : NumberOfAuxSymbols
-"""
+""", packed=True
 )
 class StdSymbolRecord(StructFormatter):
     def __init__(self, data=None, offset=0):
@@ -837,7 +837,7 @@ I  : TotalSize
 I  : PointerToLineNumber
 I  : PointerToNextFunction
 x*2: unused
-"""
+""", packed=True
 )
 class AuxFunctionDefinition(StructFormatter):
     def __init__(self, data=None, offset=0):
@@ -848,11 +848,11 @@ class AuxFunctionDefinition(StructFormatter):
 @StructDefine(
     """
 x*4: unused
-H*6: LineNumber
-x  : unused
+H  : LineNumber
+x*6: unused
 I  : PointerToNextFunction
 x*2: unused
-"""
+""", packed=True
 )
 class Aux_bf_ef(StructFormatter):
     def __init__(self, data=None, offset=0):
@@ -865,7 +865,7 @@ class Aux_bf_ef(StructFormatter):
 I   : TagIndex
 I   : Characteristics
 x*10: unused
-"""
+""", packed=True
 )
 class AuxWeakExternal(StructFormatter):
     def __init__(self, data=None, offset=0):
@@ -893,7 +893,7 @@ I   : Checksum
 H   : Number
 B   : Selection
 x*3 : unused
-"""
+""", packed=True
 )
 class AuxSectionDefinition(StructFormatter):
     def __init__(self, data=None, offset=0):
